@@ -12,7 +12,7 @@ def check(rep):
     PR.rule_key_order_independent(ctx, rid="C09.ORDER-INDEPENDENT")
     ER.rule_call_forwards(ctx)
     ER.rule_value_keyed_caches(ctx, rid="C09.NO-VALUE-KEYED-CACHE", modules={"binning/binning.py", "experiment_evaluator.py"})
-    ER.rule_installed_function(ctx, rid="C09.ID-ONLY-NAME", strict=False, facets=("installed",))
+    ER.rule_installed_function(ctx, rid="C09.ID-ONLY-NAME", strict=False, facets=("namespace", "installed"))
     ER.rule_whole_key(ctx, rid="C09.WHOLE-KEY")
     ER.rule_position_slice(ctx, rid="C09.POSITION-FROM-KEY", parts=("arg",))
     rep.assume("NOT decided: that different salts/values give different groups (MD5's behaviour); decided: that they reach the hash")
